@@ -36,10 +36,68 @@ func genParams(g *genCtx, lean string, facts map[string]interface{}) error {
 		g.miss("params = append(queryParams, params...) in Mux.serveHTTP")
 	}
 	facts["pathParamsLast"] = pathLast
+	// where the stream transports apply the URL parameters: outside the hasBody block, under a
+	// first-message guard
+	type site struct{ outside, first, found bool }
+	paramsSite := func(fn string) site {
+		var st site
+		fd := g.funcs[fn]
+		if fd == nil {
+			return st
+		}
+		var walk func(n ast.Node, conds []string)
+		walk = func(n ast.Node, conds []string) {
+			switch x := n.(type) {
+			case nil:
+				return
+			case *ast.IfStmt:
+				if x.Init != nil {
+					walk(x.Init, conds)
+				}
+				inner := append(append([]string{}, conds...), exprString(x.Cond))
+				walk(x.Body, inner)
+				if x.Else != nil {
+					walk(x.Else, inner)
+				}
+				return
+			case *ast.CallExpr:
+				if strings.HasSuffix(exprString(x.Fun), ".params.set") {
+					st.found, st.outside, st.first = true, true, false
+					for _, cnd := range conds {
+						if strings.Contains(cnd, "hasBody") {
+							st.outside = false
+						}
+						if strings.Contains(cnd, "recvN==1") || strings.Contains(cnd, "count==0") {
+							st.first = true
+						}
+					}
+				}
+			}
+			ast.Inspect(n, func(m ast.Node) bool {
+				if m == n || m == nil {
+					return true
+				}
+				walk(m, conds)
+				return false
+			})
+		}
+		walk(fd.Body, nil)
+		return st
+	}
+	ws, ht := paramsSite("streamWS.RecvMsg"), paramsSite("streamHTTP.RecvMsg")
+	if !ws.found {
+		g.miss("s.params.set(args) in streamWS.RecvMsg")
+	}
+	if !ht.found {
+		g.miss("s.params.set(args) in streamHTTP.RecvMsg")
+	}
+	facts["wsParamsOutsideBody"], facts["httpParamsOutsideBody"] = ws.outside, ht.outside
 	var sb strings.Builder
 	sb.WriteString(genHeader)
 	sb.WriteString("namespace Larking.Gen\n\n")
 	fmt.Fprintf(&sb, "/-- `serveHTTP` applies the path captures after the query parameters. -/\ndef pathParamsLast : Bool := %v\n\n", pathLast)
+	fmt.Fprintf(&sb, "/-- `streamWS.RecvMsg`: `s.params.set(args)` is not nested in the `if s.method.hasBody` block, and is guarded by a first-message test. -/\ndef wsParamsOutsideBody : Bool := %v\ndef wsParamsFirstOnly : Bool := %v\n\n", ws.outside, ws.first)
+	fmt.Fprintf(&sb, "/-- `streamHTTP.RecvMsg`: likewise. -/\ndef httpParamsOutsideBody : Bool := %v\ndef httpParamsFirstOnly : Bool := %v\n\n", ht.outside, ht.first)
 	sb.WriteString("end Larking.Gen\n")
 	return writeIfChanged(filepath.Join(lean, "Larking/Gen/Params.lean"), sb.String())
 }
